@@ -147,6 +147,7 @@ var privKinds = []string{"rsa", "ed25519", "ed25519", "ecdsa256", "ecdsa384", "e
 // ---------------------------------------------------------------- oracles (independent walker)
 
 type oracles struct {
+	kdfkey                      string // the 48 bytes key ‖ iv the AES oracle below was evaluated with
 	dec, rsavalid, edpub, ecpub string
 	slow                        bool // a mutation turned the bcrypt round count into something expensive
 }
@@ -154,7 +155,7 @@ type oracles struct {
 func readStr(b []byte) ([]byte, []byte, bool) { return wire.ReadStr(b) }
 
 func computeOracles(file, pass []byte, mode string) oracles {
-	o := oracles{dec: "none", rsavalid: "none", edpub: "none", ecpub: "none"}
+	o := oracles{kdfkey: "none", dec: "none", rsavalid: "none", edpub: "none", ecpub: "none"}
 	if !bytes.HasPrefix(file, []byte(magic)) {
 		return o
 	}
@@ -193,29 +194,27 @@ func computeOracles(file, pass []byte, mode string) oracles {
 		if rounds > 2048 {
 			return o
 		}
-		if rounds > 64 {
+		if rounds > 4 { // the Lean bcrypt_pbkdf model is linear in rounds: keep generated files cheap
 			o.slow = true
 			return o
 		}
-		cname := string(cn)
-		if cname != "aes256-cbc" {
-			cname = "aes256-ctr" // unknown names: any value is fine, the model rejects the name
-		}
-		if cname == "aes256-cbc" && len(blk)%16 != 0 {
-			// Go checks the length after deriving the key; the derivation result still matters
-			if _, err := ssh.VerifC39BcryptPbkdf(pass, salt, int(rounds), 48); err != nil {
-				o.dec = "err"
-			} else {
-				o.dec = "-"
-			}
-			return o
-		}
-		p, err := crypt(cname, pass, salt, rounds, blk, false)
+		k, err := ssh.VerifC39BcryptPbkdf(pass, salt, int(rounds), 48)
 		if err != nil {
-			o.dec = "err"
-			return o
+			return o // the model derives the error itself (rounds 0, empty salt, empty passphrase)
 		}
-		plain = p
+		o.kdfkey = hx.Hex(k)
+		c, _ := aes.NewCipher(k[:32])
+		out := make([]byte, len(blk))
+		switch {
+		case string(cn) == "aes256-cbc" && len(blk)%16 != 0:
+			o.dec = "-" // refused before AES is used
+			return o
+		case string(cn) == "aes256-cbc":
+			cipher.NewCBCDecrypter(c, k[32:]).CryptBlocks(out, blk)
+		default: // aes256-ctr; for unknown names any value is fine, the model rejects the name
+			cipher.NewCTR(c, k[32:]).XORKeyStream(out, blk)
+		}
+		plain = out
 		o.dec = hx.Hex(plain)
 	}
 	// private section
@@ -320,8 +319,8 @@ func parseLine(class, outerTag, mode string, file, pass []byte) string {
 	if o.dec != "none" && o.dec != "err" && o.dec != "-" {
 		scan = append(bytes.Clone(file), hx.UnHex(o.dec)...)
 	}
-	return fmt.Sprintf("parse class=%s outer=%s mode=%s blob=%s pass=%s dec=%s rsavalid=%s edpub=%s ecpub=%s pts=%s",
-		class, outerTag, mode, hx.Hex(file), hx.Hex(pass), o.dec, o.rsavalid, o.edpub, o.ecpub, ptsField(scan))
+	return fmt.Sprintf("parse class=%s outer=%s mode=%s blob=%s pass=%s kdfkey=%s dec=%s rsavalid=%s edpub=%s ecpub=%s pts=%s",
+		class, outerTag, mode, hx.Hex(file), hx.Hex(pass), o.kdfkey, o.dec, o.rsavalid, o.edpub, o.ecpub, ptsField(scan))
 }
 
 func emitParse(g *hx.Gen, class, outerTag, mode string, file, pass []byte) {
@@ -391,6 +390,14 @@ func genParse(g *hx.Gen, r *hx.Rand) {
 		f.cipher, f.kdf = hx.Pick(r, []string{"aes256-ctr", "aes256-ctr", "aes256-cbc"}), "bcrypt"
 		f.salt, f.rounds = r.Bytes(16), uint32(r.Range(1, 2))
 		pass = []byte(hx.Pick(r, []string{"pw", "correct horse", "x"}))
+		if r.Chance(1, 2) { // long passphrases: Blowfish key (72), SHA-512 block (128) and MD5/DES boundaries
+			n := hx.Pick(r, []int{8, 16, 55, 56, 57, 63, 64, 65, 71, 72, 73, 127, 128, 129, 200, 257})
+			pass = make([]byte, n)
+			for i := range pass {
+				pass[i] = byte('a' + (i*7+n)%26)
+			}
+			g.Stat(fmt.Sprintf("passlen.%d", n))
+		}
 		f.pass = pass
 		class = "valid-enc"
 	}
@@ -573,10 +580,30 @@ func genParse(g *hx.Gen, r *hx.Rand) {
 				f.rounds = 1
 			}
 		}
-	case 23:
+	case 23, 36, 37, 38:
 		class = "wrong-passphrase"
 		if mode == "pass" {
-			pass = []byte(hx.Pick(r, []string{"other", "pw ", ""}))
+			right := pass
+			switch r.Intn(8) {
+			case 0:
+				pass = []byte(hx.Pick(r, []string{"other", "pw ", ""}))
+			case 1:
+				pass, class = append(bytes.Clone(right), 'x'), "wrong-passphrase-right+x"
+			case 2:
+				pass, class = append(bytes.Clone(right), 0), "wrong-passphrase-right+NUL"
+			case 3:
+				pass, class = bytes.Clone(right[:len(right)-1]), "wrong-passphrase-minus-last"
+			case 4:
+				pass, class = bytes.Clone(right), "wrong-passphrase-last-byte"
+				pass[len(pass)-1] ^= 1
+			default: // agrees with the right one on a long prefix
+				n := hx.Pick(r, []int{8, 16, 55, 56, 64, 72, 127, 128})
+				if n < len(right) {
+					pass, class = bytes.Clone(right[:n]), fmt.Sprintf("wrong-passphrase-prefix-%d", n)
+				} else {
+					pass, class = append(bytes.Clone(right), right...), "wrong-passphrase-doubled"
+				}
+			}
 		}
 	case 24:
 		class = "mode-mismatch" // encrypted file without passphrase API and vice versa
